@@ -136,13 +136,27 @@ def run_verus_unit(runner, unit, r):
     os.makedirs(keep, exist_ok=True)
     if unit.kind != "canary":
         open(os.path.join(keep, unit.name + ".extracted.rs"), "w").write(text)
-    cmd = ["verus", f, "--output-json", "--time", "--rlimit", str(unit.extra.get("rlimit", 60))]
-    try:
-        p = subprocess.run(cmd, cwd=d, stdout=subprocess.PIPE, stderr=subprocess.PIPE, timeout=unit.timeout, text=True)
-        out, err, rc = p.stdout, p.stderr, p.returncode
-    except subprocess.TimeoutExpired:
-        r.status, r.reason = "undecided", "verus timeout after %ds" % unit.timeout
-        return r
+    # A successful z3 run is a proof whatever its random seed; a failing run may be solver instability.
+    # So: a failure is re-tried with two other seeds and only a failure under all three is reported.
+    attempts = []
+    for sd in (0, 7, 42):
+        cmd = ["verus", f, "--output-json", "--time", "--rlimit", str(unit.extra.get("rlimit", 60)), "--multiple-errors", "8"]
+        if sd:
+            cmd += ["--smt-option", "smt.random_seed=%d" % sd, "--smt-option", "sat.random_seed=%d" % sd]
+        try:
+            p = subprocess.run(cmd, cwd=d, stdout=subprocess.PIPE, stderr=subprocess.PIPE, timeout=unit.timeout, text=True)
+            out, err, rc = p.stdout, p.stderr, p.returncode
+        except subprocess.TimeoutExpired:
+            r.status, r.reason = "undecided", "verus timeout after %ds" % unit.timeout
+            return r
+        attempts.append(sd)
+        try:
+            ok = json.loads(out).get("verification-results", {}).get("success", False)
+        except Exception:
+            ok = False
+        if ok or unit.kind == "canary":
+            break
+    r.attempt_seeds = attempts
     open(lp, "w").write(out + "\n==== stderr ====\n" + err)
     r.wall = time.time() - t0
     r.stubs = dropped
